@@ -78,17 +78,30 @@ CHECKS["C03"] = dict(
           "any sequence) hold ONLY under the hypothesis LocalMaxGlobal on the input mesh (four C03_mesh_*_partial theorems; that edge graphs of "
           "convex polytopes satisfy it is not proved). Checker soundness: support_cert, in_shape_tolD, the shape expressions denote the Spec "
           "sets (C03_expr_*), cone_cert => LocalMaxGlobal up to M*10*eps for that mesh (C03_mesh_support_certified). JUDGED PER GENERATED INPUT "
-          "only: every answer of the implementation by an exact rational oracle at 1e-9 L and again by the Coq-proven support_cert / "
-          "in_shape_tolD (vm_compute on exact rationals); up to 12 (quick) / 80 (thorough) meshes get an exact cone certificate, for the others "
-          "the hypothesis is evaluated exactly per mesh and direction; argument and collider arrays must stay unmodified. TIE to the code, every "
+          "only: every answer of the implementation by an exact rational (Python Fraction) oracle at 1e-9 L and again, doubling the oracle, by "
+          "the Coq-proven support_cert / in_shape_tolD (vm_compute on exact rationals; a certificate rejected where the oracle accepts is "
+          "counted as inconclusive, never as a failure); up to 12 (quick) / 80 (thorough) meshes of at most 30 vertices get an exact cone "
+          "certificate (cone_cert), for the others the hypothesis is evaluated exactly per mesh and direction; argument and collider arrays "
+          "must stay unmodified; in half of the cases all queries go through ONE direction array overwritten in place. Pose histories (40-60 % "
+          "of the cases of every kind with update_pose, Margin-wrapped ones included): the collider is constructed at another pose and brought "
+          "to the case's pose by 1-4 update_pose calls that all carry ONE pose array edited in place (the constructor's own array or that of "
+          "the first update, optionally a matrix of a (3,4,4) stack); support points, first_vertex and center are judged by the oracle after "
+          "construction and after every update against the pose of THAT step, the final state runs the whole pipeline. Stream `ring`: barrel "
+          "meshes of 2-3 rings x 48..3000 (thorough 4000) segments with a fan per cap (graph diameter ~ n/4 edges), queried along lateral "
+          "directions whose maximiser lies halfway between two shortcut vertices, their opposites and repeats, each also on a new object; "
+          "meshes with more than 400 vertices (ring meshes up to 6002, thorough 8002 vertices) are judged by the exact oracle ALONE - "
+          "float-screened: every vertex within 1e-9*scale of the binary64 extremum is evaluated in exact rationals - and by the comparison "
+          "with new objects, NOT by the Coq model or the certificates. TIE to the code, every "
           "run: the binary64 run of the same model inside coqc vs the implementation (support value; point where unique or exactly "
           "representable; vertex index; shortcut table; adjacency = edge graph of the triangles; first_vertex; center; mesh query histories vs "
           "fresh objects); line coverage of the 47 functions in scope is measured (182/182). NOT proved: IEEE rounding (measured only); for "
           "non-zero |d| < ~1e-162 the binary64 model takes the norm == 0 arm where numba's BLAS norm does not, and the point comparison is "
-          "skipped for |d| <= 1e-150 (same root as C20-NORM-UNDERFLOW). Known findings: none."),
+          "skipped for |d| <= 1e-150 (same root as C20-NORM-UNDERFLOW). Assumption: C03 is read as a statement about the collider in any state "
+          "reachable through its public methods (after update_pose(P) the set is the shape at P, whichever array carried P); observations "
+          "after an in-place edit WITHOUT a following update_pose are not judged. Known findings: none."),
     design_ref="DESIGN.md section 5, C03",
-    technique="Coq proof over R about a hand-written Gallina model + model/implementation correspondence by vm_compute (PrimFloat) + exact rational oracle doubled by Coq-proven support/membership/mesh-cone certificates",
-    note=TB + "; " + RA + "; the per-input property oracle is an exact Python Fraction oracle (not Coq-extracted); harness/props/shapes_meshcone.py builds untrusted cone certificates; IEEE rounding is measured, not modelled",
+    technique="Coq proof over R about a hand-written Gallina model + model/implementation correspondence by vm_compute (PrimFloat) + exact rational oracle doubled by Coq-proven support/membership/mesh-cone certificates, on single queries, query sequences and update_pose histories through one re-used pose array",
+    note=TB + "; " + RA + "; the per-input property oracle is an exact Python Fraction oracle (not Coq-extracted), float-screened for polytopes with more than 200 vertices (float error < 1e-13*scale against a 1e-9*scale window); meshes with more than 400 vertices are judged by that oracle alone (no Coq model, no certificates); harness/props/shapes_meshcone.py builds untrusted cone certificates; IEEE rounding is measured, not modelled",
 )
 CHECKS["C04"] = dict(
     category="proof",
@@ -102,19 +115,30 @@ CHECKS["C04"] = dict(
           "C04_ellipsoid_refuted exhibits a rotation where the returned box does NOT enclose the ellipsoid (known finding F9). "
           "RigidBody.aabb(): exact for the stored body-frame vertices, ignores body2origin_ (C04_rigid_body_ignores_pose), refuted in the world "
           "frame (C04_rigid_body_world_refuted = known finding RB-AABB). C04_aabb_cert_sound: soundness of the per-run box certificate. JUDGED "
-          "PER GENERATED INPUT only: every returned box by an exact rational oracle on the six bounds (1e-9 L) and by the Coq-proven aabb_cert "
-          "inside coqc (all accepted except the F9 class); streams near-aligned / 1-ulp-off / exact / lattice / random poses; RigidBody observed "
-          "again after express_in; a second aabb() call and the collider arrays must be unchanged. TIE to the code, every run: the six bounds of "
+          "PER GENERATED INPUT only: every returned box (collider.aabb() and the containment free function) by an exact rational (Python "
+          "Fraction) oracle on the six bounds (1e-9 L) and, doubling the oracle, by the Coq-proven aabb_cert inside coqc (enclosure by proven "
+          "upper bounds of the support value, tightness by six untrusted witness points; all accepted except the F9 class; rigid bodies and "
+          "hulls of more than 40 vertices are not submitted; a certificate rejected where the oracle accepts is inconclusive, never a "
+          "failure); streams near-aligned / 1-ulp-off / exact / lattice / random poses and `degen` (all sizes nearly equal); RigidBody observed "
+          "again after express_in; a second aabb() call and the collider arrays must be unchanged; the free functions are called again on "
+          "the same argument arrays overwritten in place. Pose histories (40-70 % of the collider cases of every kind with update_pose): "
+          "constructed at another pose, aabb(), then 1-4 update_pose calls each followed by aabb() twice, all poses carried by ONE array "
+          "object edited in place between the calls (the constructor's own array or that of the first update, optionally a matrix of a "
+          "(3,4,4) stack); every stage's box is judged by the exact oracle against the pose of THAT stage, the final box also by aabb_cert and "
+          "the model; F9 is matched per stage (its class predicate 'rotation is not a signed permutation' is evaluated for that stage's pose). "
+          "TIE to the code, every run: the six bounds of "
           "the binary64 model run inside coqc vs the implementation; 60/60 lines of the functions in scope hit. NOT proved: IEEE rounding; "
           "RigidBody.aabb() is modelled as the merge of per-tetrahedron boxes (that the tree's root box is this merge is C05's theorem). "
-          "Known findings: F9, RB-AABB."),
+          "Assumption: C04 is read as a statement about the collider in any state reachable through its public methods (after update_pose(P) "
+          "the box must enclose tightly the shape at P, whichever array carried P); observations after an in-place edit WITHOUT a following "
+          "update_pose are not judged. Known findings: F9, RB-AABB."),
     design_ref="DESIGN.md section 5, C04",
-    technique="Coq proof over R about a hand-written Gallina model + model/implementation correspondence by vm_compute (PrimFloat) + exact rational oracle doubled by the Coq-proven aabb_cert",
+    technique="Coq proof over R about a hand-written Gallina model + model/implementation correspondence by vm_compute (PrimFloat) + exact rational oracle doubled by the Coq-proven aabb_cert, on fresh colliders and on update_pose histories through one re-used pose array",
     note=TB + "; " + RA + "; the per-input property oracle is an exact Python Fraction oracle; RigidBody.aabb() modelled as merge of per-tetrahedron boxes (C05 gives root box = merge)",
 )
 CHECKS["C13"] = dict(
     category="proof",
-    text=("PROVED in Coq for ALL inputs (Props/C13.v, 22 theorems + 1 non-vacuity lemma; real-number axioms only) about the real-arithmetic "
+    text=("PROVED in Coq for ALL inputs (Props/C13.v, 23 theorems + 1 non-vacuity lemma + 3 non-vacuity examples; real-number axioms only) about the real-arithmetic "
           "model Model/Contain.v of containment_test.py: for orthonormal poses predicate = true <-> point of the closed set for sphere, capsule "
           "(height > 0), ellipsoid (radii > 0), cylinder, cone (height > 0), box - the size hypotheses exclude the divisions by zero of the code "
           "(NaN in binary64, 0 in Coq's total division); the disk predicate accepts exactly the slab of half width 10 eps (absolute) around "
@@ -122,16 +146,25 @@ CHECKS["C13"] = dict(
           "point of the hull when the faces are outward (C13_convex_mesh_complete_partial - PARTIAL: the converse needs the H=V representation "
           "theorem for the input triangulation). Cross-agreement with the models of other properties: contained <-> point_to_box / "
           "point_to_cylinder distance 0; disk: contained => distance <= 10 eps, distance 0 <-> on the disk; no contained point projects beyond "
-          "the support value of C03 (seven C13_*_support theorems). C13_outside_cert_sound: soundness of the per-run 'must be False' "
-          "certificate. JUDGED PER GENERATED INPUT only: the implementation's booleans against an exact rational in / out / band classification "
-          "at 1e-9 L; 'must be False' verdicts doubled by the Coq-proven outside_cert inside coqc; batch = single = reversed order on judged "
-          "points; arguments unmodified and a second call identical; cross-checks with the implementation's own point_to_<shape> and "
+          "the support value of C03 (seven C13_*_support theorems). Checker soundness: C13_outside_cert_sound (outside_cert = true => the "
+          "point is at least tau away from every point of the shape: the per-run 'must be False' certificate, one untrusted separating "
+          "direction) and C13_member_cert_sound (member_cert = true => the point IS a convex combination of the mesh's world vertices). "
+          "JUDGED PER GENERATED INPUT only: the implementation's booleans against an exact rational (Python Fraction) in / out / band "
+          "classification at 1e-9 L (band points are not judged); 'must be False' verdicts doubled by the Coq-proven outside_cert inside coqc "
+          "(up to 8 points per case, boundary pushes first; a True answer on a certified point is a failure); for meshes of at most 30 vertices "
+          "up to 4 accepted points per case are submitted to member_cert with exact convex weights found by the harness (untrusted) - the "
+          "per-input substitute for the missing converse of the convex-mesh theorem; counted in the evidence, a rejection is not a failure; the "
+          "'at least 1e-9 L inside' side of all other shapes is judged by the Python oracle only. Batch = single = reversed order on judged "
+          "points; arguments unmodified and a second call identical; 60 % of the cases carry a call history on the SAME argument arrays (call, "
+          "overwrite the arrays in place with another shape, call, compare with a call on fresh arrays); stream `degen` (all sizes equal up to "
+          "1e-7..1e-4 relative); cross-checks with the implementation's own point_to_<shape> and "
           "support_function. TIE to the code, every run: booleans compared with the binary64 model run inside coqc wherever judged, and exactly "
-          "(boundary points, absolute thresholds) on exactly representable cases; 72/72 lines hit. NOT proved: IEEE rounding inside the 1e-9 L "
+          "(boundary points, absolute thresholds; exhaustive 7x7x7 lattices in half of the `exact` cases) on exactly representable cases; 72/72 "
+          "lines hit. NOT proved: IEEE rounding inside the 1e-9 L "
           "band; flat disk: only the False side is judged; convex meshes: faces come from scipy ConvexHull and are verified exactly as "
           "supporting half-spaces. Known findings: none."),
     design_ref="DESIGN.md section 5, C13",
-    technique="Coq proof over R about a hand-written Gallina model + model/implementation correspondence by vm_compute (PrimFloat) + exact rational oracle doubled by the Coq-proven outside_cert",
+    technique="Coq proof over R about a hand-written Gallina model + model/implementation correspondence by vm_compute (PrimFloat) + exact rational oracle doubled by the Coq-proven outside_cert ('must be False') and member_cert (accepted mesh points)",
     note=TB + "; " + RA + "; convex meshes: faces from scipy ConvexHull verified exactly as supporting half-spaces; flat disk: only the False side is judged",
 )
 CHECKS["C14"] = dict(
@@ -149,8 +182,12 @@ CHECKS["C14"] = dict(
           "__init__ / update_pose / make_artist and on any state write of the mesh functor other than the vertex cache. MODELLED, NOT PROVED: "
           "numpy's view / layout rules and numba's dispatch on declared signatures; the numerical kernels are arbitrary functions of the "
           "attribute data, so query BODIES are not compared with a model here (C03 / C04 do that). JUDGED PER GENERATED INPUT only: on generated "
-          "histories (pose sources incl. one buffer / one stack slot overwritten in place and handed over again; tracking, drift and "
-          "trajectory-player histories) the layout model is validated against arr.flags and raised exception types, and every query inside the "
+          "histories (pose sources: fresh array, item of a stack, pytransform3d TransformManager, one buffer / one stack slot overwritten in "
+          "place and handed over again; tracking, drift and trajectory-player histories; `buffer player` histories for EVERY class: 2-5 steps, "
+          "each = the SAME array overwritten in place, update_pose(it), then 1-3 of aabb / support / first_vertex / center / collider2origin / "
+          "gjk, so that an answer remembered per identity or content of the pose array would survive a step; the evidence counts per class the "
+          "histories with an aabb() between two updates through the same buffer) the layout model is validated against arr.flags and raised "
+          "exception types, and every query inside the "
           "history as well as the final battery is compared bitwise with a NEW object built at the pose reached so far. Outside the property: "
           "queries between the caller's in-place mutation of a pose array and the next update_pose. The source reader is fail-closed by whole-body pins: "
           "every method of every class in colliders.py and of the mesh support functor is compared (normalised syntax tree) with a reference "
@@ -158,7 +195,7 @@ CHECKS["C14"] = dict(
           "are refused (a refusal = broken obligation, stale tables are never evidence). Limits: the pins are syntactic (a harmless refactoring is "
           "refused too); subclasses or monkeypatching in other modules and make_artist bodies are not seen. Known findings: none."),
     design_ref="DESIGN.md section 5, C14",
-    technique="Coq proof by induction over operation histories on a model regenerated from the source (ast reader) + history correspondence",
+    technique="Coq proof by induction over operation histories on a model regenerated from the source (ast reader) + history correspondence (every query of generated histories, incl. pose buffers overwritten in place, compared bitwise with a new object)",
     note=TB + "; no axioms in Props/C14.v; harness/tables_c14.py (ast reader) is trusted; numerical kernels are abstract functions of attribute data in the model",
 )
 CHECKS["C17"] = dict(
@@ -223,11 +260,12 @@ CHECKS["C02"] = dict(
 )
 CHECKS["C06"] = dict(
     category="proof",
-    text=("Machine-checked (Props/C06.v, 24 statements; the generic ones are closed under the global context; five over the reals - "
+    text=("Machine-checked (Props/C06.v, 25 theorems, 2 lemmas for the integer instance and 2 non-vacuity examples; the generic ones are closed under the global context; five over the reals - "
           "update_poses_never_asserts_R, update_poses_succeeds_R, add_collider_never_asserts_R, real_order_ok, narrow_hypothesis_from_enclosure "
           "- use the standard-library real-number axioms) about the Gallina model Model/Bvh.v of BoundingVolumeHierarchy / "
           "self_collision.detect / detect_any / urdf_utils.self_collision_whitelists on top of the proven AABB-tree model of C05. PROVED for "
-          "ALL inputs and histories: (1) poses_current: after any sequence of add_collider, transform changes, whitelist updates and "
+          "ALL inputs and histories: (1) poses_current: after any sequence of add_collider (also under a frame name in use: the entry is "
+          "replaced), removal of an entry, transform changes, whitelist updates and "
           "update_collider_poses ending with update_collider_poses, the tree holds exactly one leaf per registered collider with its current "
           "aabb and payload and every collider is at the transform manager's current transform (poses_current_aliasing_refuted: false when one "
           "object is registered under two frames); fill_tree_with_colliders is such a history; with the C14 collider model plugged in, "
@@ -237,19 +275,32 @@ CHECKS["C06"] = dict(
           "rests on the named hypothesis narrow_implies_aabb_overlap, derived over the reals from enclosure of the shapes by their boxes - "
           "which C04 REFUTES for Ellipsoid colliders in /repo (finding F9, recorded under C04); (4) generated whitelists = own link + last "
           "parent + last child, and can be asymmetric; (5) no AssertionError in update_collider_poses / add_collider in exact real "
-          "arithmetic. JUDGED PER GENERATED INPUT only: that the model IS the code - the real classes run on generated URDF chains / trees / "
+          "arithmetic; (6) identity of the objects handed out (all closed under the global context): query_returns_registered_object - after "
+          "ANY history of add_collider under new or USED frame names / Remove / transform / whitelist changes that ends with "
+          "update_collider_poses (no object under two frames), whatever aabb_overlapping_colliders returns under a frame name is the object "
+          "registered under that name NOW, never a replaced or removed one, and its current aabb overlaps the query; "
+          "add_collider_registers_object (a replacement keeps the number of colliders, other names keep their object); "
+          "remove_collider_unregisters_object; C06_identity_nonvacuous (replacement and removal + re-adding on the integer world). "
+          "JUDGED PER GENERATED INPUT only: that the model IS the code - the real classes run on generated URDF chains / trees / "
           "stars (links in arbitrary order, 20 % with visuals, extras registered before fill_tree, transforms edited in place) with set_joint "
-          "histories; every answer IN ORDER is compared with the model evaluated by vm_compute, plus an independent all-pairs brute-force "
-          "oracle. NOT proved: collider kernels (update_pose, aabb(), gjk_intersection), IEEE rounding, the float cost assertion of "
-          "insert_leaf and pytransform3d are parameters of the model; the coordinate order is a hypothesis (transitive, no NaN). Known "
+          "histories and, in 40 % of the rounds, TOOL CHANGES (add_collider under a frame name in use = replacement with the same count; "
+          "`del colliders_[f]` followed by add_collider of a new or of the same object; swap; plain removal; usually after the BVH has been "
+          "queried and with no query before the next update_collider_poses, in 25 % with queries on the stale tree); every answer IN ORDER, "
+          "every returned collider identified as an OBJECT (also the objects detect hands to the narrow phase, recorded by wrapping "
+          "gjk_intersection), is compared with the model evaluated by vm_compute, plus an independent all-pairs brute-force "
+          "oracle; replacement and removal are judged against the property only after the next update_collider_poses. A `beyond` stream "
+          "(duplicate names, one object under two frames, unknown frames, stale-tree queries) is compared with the model incl. exception "
+          "types only. NOT proved: collider kernels (update_pose, aabb(), gjk_intersection), IEEE rounding, the float cost assertion of "
+          "insert_leaf and pytransform3d are parameters of the model; the coordinate order is a hypothesis (transitive, no NaN); taking a "
+          "collider out has no method in /repo: Remove models `del colliders_[f]; collider_frames.discard(f)` on the public attributes. Known "
           "findings: none."),
     design_ref="DESIGN.md section 5, C06",
-    technique="Coq proof of BVH/self-collision exactness (generic theorems without axioms, five real-arithmetic corollaries with the real-number axioms) over the proven AABB-tree model + order-exact model/implementation correspondence + brute-force oracle",
-    note=TB + "; pytransform3d (URDF parser, TransformManager) as source of poses; Python dict order = insertion order",
+    technique="Coq proof of BVH/self-collision exactness and of the identity of returned collider objects under replacement / removal (generic theorems without axioms, five real-arithmetic corollaries with the real-number axioms) over the proven AABB-tree model + order-exact and object-exact model/implementation correspondence + brute-force oracle",
+    note=TB + "; pytransform3d (URDF parser, TransformManager) as source of poses; Python dict order = insertion order; the model's identity token per frame is the object id (heap index) carried by colliders_ and the tree payloads",
 )
 CHECKS["C12"] = dict(
     category="proof",
-    text=("PROVED, theorems over the reals (Props/C12.v, 63 statements; real-number axioms only): dist_ge, dist_le, intersect, is_support and "
+    text=("PROVED, theorems over the reals (Props/C12.v, 63 theorems + 1 non-vacuity example; real-number axioms only): dist_ge, dist_le, intersect, is_support and "
           "the distance given by its two defining inequalities are invariant under one rigid motion applied to both sets, symmetric in the "
           "arguments and scale with a uniform scaling; hence ANY function validated to return the distance within tau on a scene and tau' on "
           "its moved / swapped / scaled copy returns values that differ by at most tau + tau' (C12_inherited_rigid / _swap / _scale / _bool: "
@@ -265,12 +316,18 @@ CHECKS["C12"] = dict(
           "run) is run in five forms - original, swapped (fresh objects and again on the same two), moved (fresh), moved through update_pose "
           "with the pose array overwritten in place, scaled - and distances, depths, booleans outside the 1e-3 L band, points, directions and "
           "mtv are compared with the tolerance of the specifying property; where the optimum is not unique the verdict uses consequences that "
-          "hold for ANY optimal answer (membership by the Coq-proven in_shape_tol inside coqc). MPR: flag, contact position and depth >= EPA "
+          "hold for ANY optimal answer (membership by the Coq-proven in_shape_tol inside coqc). Stream `nearid` (judged like every other scene: "
+          "d at 1e-6 (L0 + L1), points at 1e-9 L): the frames of both arguments are within 1e-9 .. 1e-5 rad of the identity / of an axis "
+          "permutation, or exactly so; the scene sits near the origin and is moved by (identity | near-identity | axis permutation) + a "
+          "translation of up to 985, or sits up to 985 from the origin (the domain allows 1e3) and is moved by an arbitrary rotation - an "
+          "absolute tolerance on a rotation block shows only as angle * |translation|; all 34 distance functions (quick: 80 scenes per "
+          "function taking a 4x4 pose, 4 per other function) and 28 collider scenes (14 full query sets, 14 support-layer scenes). "
+          "MPR: flag, contact position and depth >= EPA "
           "depth - 2e-3 L are judged; equality of MPR depths is a statistic only. TIE to the code: the equivariance theorems speak about the "
           "models of C03 / C10 / C13 and rely on those checks' correspondences. Skipped and counted: inputs in known-finding classes of C07 / "
           "C08 / C10 / C11 and (while F-J2 is recorded) self-inconsistent Jolt GJK answers. Known findings: none."),
     design_ref="DESIGN.md section 5, C12",
-    technique="Coq proofs of spec-level invariance + model equivariance; metamorphic differential of paired implementation runs judged with the specifying properties' tolerances and a Coq-proven membership checker",
+    technique="Coq proofs of spec-level invariance + model equivariance; metamorphic differential of paired implementation runs (five forms per scene; general, lattice and near-identity / axis-permutation frames up to 1e3 from the origin) judged with the specifying properties' tolerances and a Coq-proven membership checker",
     note=TB + "; " + RA + "; harness transform_spec / primlib.rigid build the moved scene in floats; the harness' inner-radius oracle decides 'clear overlap' for the boolean comparisons; known-finding predicates imported from c10/c11, those input classes are skipped and counted",
 )
 CHECKS["C16"] = dict(
@@ -305,10 +362,22 @@ CHECKS["C20"] = dict(
           "containment boxes and predicates, AABB helpers, GJK simplex kernels, half-plane kernels, the 34 distance functions (through the C10 "
           "worker, incl. an axial stream), collider pairs through all GJK flavours / MPR / EPA, both Nesterov variants with acceleration on "
           "flat / needle primitives, MeshGraph support sequences, AABB tree histories of C05 plus empty-tree queries, the direct tree API "
-          "(dtype / shape of results for disjoint, overlapping, empty trees), and cases of the C06 / C14 / C15 / C16 generators through their "
-          "own workers. JUDGED PER GENERATED CALL only: closed forms agree to 1e-9 relative, iterative solvers within the tolerance of "
+          "(dtype / shape of results for disjoint, overlapping, empty trees), cases of the C06 / C14 / C15 / C16 generators through their "
+          "own workers, and the integer-scalar families: SCALAR size arguments (radius, height, length, margin), documented as 'float', passed "
+          "as Python ints and numpy int64 / int32 scalars with exact identity / axis-permutation / lattice / random poses and directions "
+          "exactly along a local axis, exactly zero or on a sign boundary - `intscalar` (8 support functions, 5 AABBs, 5 containment "
+          "predicates), `intscalar-distance` (the 7 distance functions with scalar sizes, through the C10 worker without its float() "
+          "conversion), `intscalar-collider` (collider pairs built without float(), support / centre along own axes, coordinate axes and the "
+          "zero direction, plus the full solver query set). Assumption (domain decision from the property text, 'float64 C-contiguous "
+          "arrays'): ARRAY arguments are always fresh float64 C-contiguous arrays, integer-valued ones included; int64 arrays are outside "
+          "the declared domain and are not generated. JUDGED PER GENERATED CALL only: closed forms agree to 1e-9 relative, iterative solvers "
+          "within the tolerance of "
           "C01 / C07-C09, broad-phase floats to 1e-6, booleans / index sets / result structure / exception types identical; closest points and "
-          "support points are compared by value where several optima exist; a crash, hang or exception in one mode only is a failure. Static "
+          "support points are compared by value where several optima exist - except for the exactly ZERO direction, where every point has "
+          "support value 0 and the tie rule would be vacuous: there both modes must return the same point; a crash, hang or exception in one "
+          "mode only is a failure. Found by this check and FIXED in /repo (kept as regressions, not open): F29 (tree-vs-tree query of "
+          "non-overlapping trees raised IndexError interpreted only; direct tree API family; 41301d5) and F30 (support_function_capsule with "
+          "an integer radius and the zero direction truncated the z shift when interpreted; intscalar family; 2871ebd). Static "
           "side (every run, fail-closed ast scan): every njit function (136 today) with the module-level globals it captures (13); none is "
           "rebound or mutated anywhere in the package; no jit option other than cache=True. PROVED in Coq (Props/C20.v, 5 theorems, closed "
           "under the global context, about the AABB tree model of C05): for every insertion history insert / box query / tree query never "
@@ -316,12 +385,13 @@ CHECKS["C20"] = dict(
           "without indexing, and the query KERNEL applied to an empty tree's root does index out of range "
           "(C20_empty_query_kernel_index_unsafe = the old F5). NOT proved: equivalence of compiled and interpreted code - out of reach without "
           "numba / LLVM semantics; the theorems cover one data structure only, and this check has no model / code tie of its own (C05's "
-          "correspondence ties that model). Skipped and counted: inputs in recorded C10 / C11 finding classes, C16 scenes in the F17 class; the "
+          "correspondence ties that model). Skipped and counted: inputs in recorded C10 / C11 finding classes (same predicates as C10 / C11), "
+          "C16 scenes in the F17 class, and (while F-J2 is recorded) self-inconsistent Jolt GJK answers; the "
           "ORDER of tree-query pairs is not compared when a 'sort' batch has ties (numpy and numba argsort order equal keys differently). "
           "Known findings: C20-NORM-UNDERFLOW."),
     design_ref="DESIGN.md section 5, C20",
-    technique="two-mode differential of a serialised call list + fail-closed ast scan of captured globals/jit options + Coq index-safety theorems",
-    note=TB + "; no axioms in Props/C20.v; numpy's and numba's argsort order equal keys differently: order of tree-query pairs is not compared when a 'sort' batch has ties; known-finding predicates of C10/C11/C16 imported for skipping",
+    technique="two-mode differential of a serialised call list (float and integer-scalar size arguments, float64 arrays) + fail-closed ast scan of captured globals/jit options + Coq index-safety theorems",
+    note=TB + "; no axioms in Props/C20.v; numpy's and numba's argsort order equal keys differently: order of tree-query pairs is not compared when a 'sort' batch has ties; known-finding predicates of C10/C11/C16 imported for skipping; assumed input domain: array arguments float64 C-contiguous (as the property text says), scalar sizes float or integer",
 )
 
 CHECKS["C10"] = dict(
@@ -333,42 +403,57 @@ CHECKS["C10"] = dict(
           "box / ellipsoid / cylinder; 8 combinators through every enumeration order and early exit). Qualifications carried by the "
           "statements: combinator theorems assume d < max_float; C10_triangle_to_triangle concludes only feasible_eps (d may be the literal 0 "
           "while |p1-p2| <= eps); C10_point_to_circle assumes circle_feasible_ok, and C10_point_to_circle_on_axis_refuted shows the returned "
-          "point off the circle's plane for a point on the axis with 0 < |n_z| < 1e-7 (pytransform3d's eps); point_to_line_segment at s = e "
+          "point off the circle's plane for a point on the axis with 0 < |n_z| < 1e-7 (pytransform3d's eps; = known finding FD8); point_to_line_segment at s = e "
           "holds over R only because x/0 = 0 in Coq (code: NaN / ZeroDivisionError): the claim is for s <> e. No theorem: point_to_ellipsoid, "
           "line_to_circle, line_segment_to_circle, line_to_box, line_segment_to_box, disk_to_disk. (2) TIE to /repo on every run: ALL 34 "
-          "functions are modelled (incl. the line/box case tree, the line/circle root finder, the ellipsoid Newton loop, disk_to_disk) and "
+          "functions are modelled (incl. the line/box case tree, the line/circle root finder, the ellipsoid Newton loop, disk_to_disk; the "
+          "models follow /repo's fixes 257a214 and 5e40c4a) and "
           "evaluated in binary64 inside coqc on the very inputs of the implementation; d and every coordinate of every returned point must "
-          "agree within 1e-9 L; model arm coverage and line / branch coverage of distance/*.py are printed. (3) JUDGED PER GENERATED INPUT "
-          "only, all 34 functions, 10 stratified streams: 'points within 1e-9 L of their primitives, ||p1-p2| - d| <= 1e-6 L, d >= 0' follows "
+          "agree within 1e-9 L; non-unique minimisers (same d, the model's pair passes the oracle) and knife-edge inputs (model or "
+          "implementation moves under a 2-ulp perturbation) are counted separately, anything else is a broken correspondence; model arm "
+          "coverage and line / branch coverage of distance/*.py are printed. (3) JUDGED PER GENERATED INPUT "
+          "only, all 34 functions, stratified streams random / far / lattice / touch / same / rotlat / shallow / small / coplanar / axis / "
+          "aniso + corpus (quick tier: path-guided selection - a stratified pool per function is traced line by line in an interpreted run; "
+          "kept are a stratified base, every candidate that raised and additions covering rarely executed lines first): 'points within 1e-9 L "
+          "of their primitives, ||p1-p2| - d| <= 1e-6 L, d >= 0' follows "
           "from the Coq theorem Checker/Prim.c10_check_sound evaluated by vm_compute on exact rationals (witnesses untrusted; quick tier: "
           "corpus + every case the Python oracle rejects + the first 10 per function, the rest by the exact Python oracle alone; thorough: "
-          "all); a second pass re-uses the same argument arrays overwritten in place (result must be bit-identical); exception in compiled or "
-          "interpreted mode / NaN / modified argument = failure and is never credited to a known finding. NOT proved: float rounding (measured "
-          "by (2)); for 6 functions universality over inputs comes from generation only. Known findings: F20, F21, FD4, FD5, FD7."),
+          "all); a second pass re-uses the same argument arrays overwritten in place (result must be bit-identical). Routing to known findings "
+          "is by input-class predicate AND failure kind: F20 explains 'off-primitive' and 'inconsistent', F21 / FD4 / FD5 / FD8 'off-primitive' "
+          "only; exception in compiled or interpreted mode / NaN / d < 0 / modified argument / dependence on the call history = failure and is "
+          "never credited to a known finding. NOT proved: float rounding (measured "
+          "by (2)); for 6 functions universality over inputs comes from generation only. Known findings (open): F20, F21, FD4, FD5, FD8; FD7 "
+          "is fixed in /repo by 5e40c4a: no routing any more, its replay in corpus/C10 must pass."),
     design_ref="DESIGN.md section 5, C10",
     technique="Coq proof over R about a hand-written Gallina model + binary64 model/implementation correspondence (vm_compute) + Coq-proven result checker on generated inputs",
     note=TB + "; " + RA + "; harness/primlib.py (generators, witness construction, second-opinion exact Python oracle, which alone judges the non-sampled quick-tier cases)",
 )
 CHECKS["C11"] = dict(
     category="proof",
-    text=("PROVED, Coq theorems for ALL inputs (Props/C11.v, 34: 27 function theorems, 2 general lemmas, 5 refutations; same models and "
-          "preconditions as C10; real-number axioms only): no pair of points of the two primitives is closer than the returned d - for 27 of "
-          "the 34 functions (the 16 leaf functions, plane_to_rectangle / box / ellipsoid / cylinder, and 7 combinators via "
-          "C11_clamp_of_convex_line_min - the convexity argument the code comments cite, proved abstractly - and the polygon-pair edge lemmas). "
+    text=("PROVED, Coq theorems for ALL inputs (Props/C11.v, 35: 28 function theorems, 2 general lemmas, 5 refutations; same models and "
+          "preconditions as C10; real-number axioms only): no pair of points of the two primitives is closer than the returned d - for 28 of "
+          "the 34 functions (the same 28 as C10: the 16 leaf functions, plane_to_rectangle / box / ellipsoid / cylinder, and 8 combinators via "
+          "C11_clamp_of_convex_line_min - the convexity argument the code comments cite, proved abstractly -, the polygon-pair edge lemmas "
+          "and, for C11_rectangle_to_box, 'a segment from a point inside a box to a point outside meets a face'). "
           "Every theorem carries the epsilon bands of the code's own tests as explicit hypotheses; inside the bands optimality is REFUTED with "
           "witnesses (C11_point_to_circle_in_band_refuted, C11_line_to_line_in_band_refuted, C11_line_to_line_segment_eps1_refuted, "
           "C11_line_to_rectangle_break_band_refuted, C11_line_segment_to_rectangle_break_band_refuted; the last two: error < 1e-6, inside the "
-          "tolerance). No theorem: point_to_ellipsoid, line_to_circle, line_segment_to_circle, line_to_box, line_segment_to_box, disk_to_disk, "
-          "rectangle_to_box. JUDGED PER GENERATED INPUT only (documented epsilon bands excluded), all 34 functions, 10 stratified streams incl. "
-          "small / coplanar / axis: a separating-direction optimality certificate checked by the Coq-proven checker (sep_cert_sound; rational "
+          "tolerance). No theorem: point_to_ellipsoid, line_to_circle, line_segment_to_circle, line_to_box, line_segment_to_box, disk_to_disk. "
+          "JUDGED PER GENERATED INPUT only (documented epsilon bands excluded), all 34 functions, the streams and path-guided selection of C10 "
+          "(incl. small / coplanar / axis / aniso): a separating-direction optimality certificate checked by the Coq-proven checker (sep_cert_sound; rational "
           "sqrt bounds for round shapes) evaluated by vm_compute on exact rationals - quick tier: corpus, every case the Python oracle rejects "
           "and the first 10 per function, the rest by the exact Python oracle alone; thorough: all - else a closer pair found by search (a "
           "targeted search over variants follows a broken correspondence) and re-verified exactly (=> failure), else 'undecided' (circle "
           "functions only; counted). TIE to the code, every run: the binary64 correspondence of the 34 models shared with C10 (d within 1e-9 "
-          "L). A failure is credited to a known finding only if the input is in the entry's class AND the binary64 model - a transliteration "
-          "of the code, defects included - reproduces the implementation's result (F23: class predicate only). NOT proved: float rounding; "
-          "optimality for the 7 functions above rests on generation, for the non-convex circle functions on an exhaustive fine search "
-          "(untrusted oracle). Known findings: F10, F11, F22, F23, FD6."),
+          "L; the models follow /repo's fixes 257a214 and 5e40c4a). A failure is credited to a known finding only if the input is in the "
+          "entry's class AND the binary64 model - a transliteration "
+          "of the code, defects included - reproduces the implementation's result AND the failing result shows the defect's own signature "
+          "(F10: clamp arm taken and the refuting pair sits at another point of the segment, model agreement may be 'unclear' under a 2-ulp "
+          "perturbation; F11: one more round of the function's own alternating projection still decreases the distance; F22: d equals "
+          "r1 + r2 - |c1 - c2|; F23: class predicate 0 < |d x n|^2 < 1e-20 only). NOT proved: float rounding; "
+          "optimality for the 6 functions above rests on generation, for the non-convex circle functions on an exhaustive fine search "
+          "(untrusted oracle). Known findings (open): F10, F11, F22, F23; FD6 is fixed in /repo by 257a214: no routing any more, its replay in "
+          "corpus/C11 must pass."),
     design_ref="DESIGN.md section 5, C11",
     technique="Coq proof of optimality over R about the Gallina model + Coq-proven separating-direction certificate checker on generated inputs + binary64 model/implementation correspondence",
     note=TB + "; " + RA + "; circle functions (non-convex): exhaustive fine search as untrusted oracle, labelled in the evidence; exact Python oracle alone for the non-sampled quick-tier cases",
@@ -526,8 +611,8 @@ CHECKS["C19"] = dict(
 
 CHECKS["C07"] = dict(
     category="translation_validation",
-    text=("Every success=True result of gjk -> epa is judged by Coq-proven result checkers (Checker/Pen.v; Props/C07.v, 9 theorems over R, "
-          "real-number axioms only) evaluated by vm_compute on the exact rationals of the returned vector; A and B are the exact shape "
+    text=("Every success=True result of gjk -> epa is judged by Coq-proven result checkers (Checker/Pen.v; Props/C07.v, 9 theorems over R + 2 "
+          "non-vacuity examples, real-number axioms only) evaluated by vm_compute on the exact rationals of the returned vector; A and B are the exact shape "
           "expressions of the floats given to the constructors. PROVED for ALL inputs: (1) touch_cert = true => after translating B by mtv some "
           "direction sees an extent of A-(B+mtv) of at most tau (residual overlap), a certified pair of points is within tau (remaining gap) "
           "and depth(A,B) <= |mtv| + tau; (2) depth_ge_cert = true => for EVERY direction n there are a in A, b in B with (a-b).n >= rho |n| "
@@ -540,20 +625,30 @@ CHECKS["C07"] = dict(
           "of A-B along n: an UPPER bound of the depth, given true support mappings), C07_epa_initial_polytope_outward. NOT proved: minimality "
           "of the exit direction (no polytope invariant of the expansion), Euclidean gap 0, termination, anything about EPA in floating point - "
           "decided per run by the certificates. TIE to the code: binary64 run of the model (Model/EpaRun.v) on vertex-hull pairs with 4 live "
-          "simplex rows only (23 of 210 quick / 183 of 1410 thorough cases): success flag, mtv (1e-9 L) and face count must agree where the "
+          "simplex rows only (a minority of the cases, 226 of 1653 in the thorough tier; the hull x hull pairs of the `big` stream included): "
+          "success flag, mtv (1e-9 L) and face count must agree where the "
           "model is stable under 1-4 ulp perturbations and np.argmin's margin exceeds 1e-9 L, otherwise only |mtv| (1e-6 L); about 1/3 unstable "
           "(lattice). JUDGED PER GENERATED INPUT only: everything else; trees, split directions, points and touching pairs are untrusted "
-          "witnesses. The depth LOWER bound is proven only for polytope pairs (tree size limit per tier); for smooth pairs only a certified "
-          "refutation is searched. 'Small polytopes must succeed' is judged per case; both windings are run. F2 / F19 are credited only if the "
-          "same query re-run with proper support rows resp. enlarged capacities succeeds and passes every certificate. Known findings: F2, F19."),
+          "witnesses. Streams: depth / lattice / deep / nested / small / aligned and `big` (18 % of the cases: feature sizes 15 .. 100, "
+          "penetration 1 .. 50 in ABSOLUTE units, so that a relative slack in one of EPA's absolute tests exceeds tau; curved x curved, curved "
+          "x polytope, 12-30-vertex hulls / meshes / boxes, and `nearly_aligned` = a polytope against a slightly smaller copy of itself turned "
+          "by 1e-6 .. 3e-4 rad or with every vertex moved by that relative amount: nearly - not exactly - coplanar vertex families of A-B), "
+          "judged exactly like every other case. The depth LOWER bound is proven only for polytope pairs (tree size limit per tier); for smooth "
+          "pairs only a certified "
+          "refutation is searched. 'Small polytopes must succeed' is judged per case; both windings are run. Routing: F2 only if GJK stopped "
+          "with n_points < 4 AND the same query re-run with the dead rows replaced by proper support points passes every certificate (or no "
+          "tetrahedron exists and a dead row is bitwise not a support difference of this run). F19, NARROWED: capacity assertion on a "
+          "polytope pair AND the rerun with enlarged capacities passes every certificate AND the face array returned by that rerun is a "
+          "closed, duplicate-free triangle surface (every edge shared by exactly two triangles); otherwise VIOLATION ('the 64-slot face "
+          "buffer was exhausted by faces that should have been removed'). Known findings: F2, F19."),
     design_ref="DESIGN.md section 5, C07",
     technique="Coq-proven result checkers (cone-tree certificate for the penetration depth, support-value bounds) evaluated by vm_compute on the implementation's exact outputs + theorems about a Gallina model of the EPA loop tied to the code by a binary64 correspondence run",
-    note=TB + "; " + RA + "; harness/narrow.py parts(); the worker observes n_points by wrapping _distance_loop; scipy only builds untrusted witnesses",
+    note=TB + "; " + RA + "; harness/narrow.py parts(); the worker (harness/impl/narrowp.py) observes n_points by wrapping _distance_loop and reports duplicate triangles / open edges of the face array returned by epa (used by the F19 predicate); scipy only builds untrusted witnesses",
 )
 CHECKS["C08"] = dict(
     category="translation_validation",
-    text=("Every mpr_penetration answer is judged by the Coq-proven checker pen_cert (Checker/PenMpr.v; Props/C08.v, 7 theorems, real-number "
-          "axioms only) on exact rationals: depth t >= 0; ||u|^2 - 1| <= 1e-9, or u = 0 and t <= 2^-52; B moved by the exact rational t*u: "
+    text=("Every mpr_penetration answer is judged by the Coq-proven checker pen_cert (Checker/PenMpr.v; Props/C08.v, 7 theorems + 2 non-vacuity "
+          "examples, real-number axioms only) on exact rationals: depth t >= 0; ||u|^2 - 1| <= 1e-9, or u = 0 and t <= 2^-52; B moved by the exact rational t*u: "
           "some direction sees an extent <= tol (residual overlap); depth(A,B) <= t + tol (t is bounded from below only, by one witness "
           "direction: over-long depths are allowed by the property); the contact position within tol of a certified point of A and of B; 'not "
           "intersecting' answers: depth(A,B) <= tol. tol = 2e-3 L. PROVED for all inputs: soundness of pen_cert (C08_direction_sound, "
@@ -565,15 +660,23 @@ CHECKS["C08"] = dict(
           "C08_mpr_contact_in_both_partial (with non-negative weights the contact position is the midpoint of a point of A and a point of B - "
           "the sign of the weights and the distance of those points are NOT proved; the per-run certificate bounds them). TIE to the code, "
           "every run: the portal the query ended with (captured from the Simplex object) is replayed through the binary64 instance "
-          "Model/MprRun.v; depth, direction and position must agree within 1e-9 L. NOT proved / not modelled here: portal discovery and "
-          "refinement (C02 replays mpr_intersection traces through Model/GjkLibccd.v), termination of _refine_portal (C19), float rounding. "
-          "JUDGED PER GENERATED INPUT only: all of the above on generated overlapping and separated pairs (concentric, aligned, coaxial, nested "
-          "streams); results are read only after two further unrelated MPR queries in the same process (aliasing of internal state is "
+          "Model/MprRun.v; depth, direction and position must agree within 1e-9 L; and the HYPOTHESES of C08_mpr_contact_in_both_partial are "
+          "checked on that final portal: every live row satisfies v = v1 - v2 (1e-12 L) with v1 within 1e-6 L of the first and v2 within "
+          "1e-6 L of the second collider (harness float oracle); a violation is reported as a broken correspondence. NOT proved / not "
+          "modelled here: portal discovery and "
+          "refinement (C02 replays mpr_intersection traces through Model/GjkLibccd.v; here there is no branch trace to compare, the arms "
+          "taken are only observed and counted), termination of _refine_portal (C19), float rounding. "
+          "JUDGED PER GENERATED INPUT only: all of the above on generated overlapping and separated pairs (streams depth / lattice / deep / "
+          "nested / small / aligned as in C07, concentric, coaxial, lattice_boxes, touch, gap, and `fewvert` = 20 % of the cases: tetrahedra, "
+          "hulls / meshes with 5-8 vertices, boxes, aspect ratios down to 0.15, generic overlapping poses, BALANCED over the arms of the first "
+          "_iterate_discover_portal call - replace v2 / replace v1 / portal complete, weights 2:1:1 - by redrawing candidates until a "
+          "harness-side float replica of the discovery, untrusted and only steering generation, predicts the drawn arm); results are read only "
+          "after two further unrelated MPR queries in the same process (aliasing of internal state is "
           "observed). F20 / F22 are credited only on the arm origin_on_v0v1_segment when nothing but the contact position fails (F20: centres "
           "within 1e-9 L; F22: a collider thinner than depth/2 along the direction). Known findings: F20, F22."),
     design_ref="DESIGN.md section 5, C08",
-    technique="Coq-proven result checker evaluated by vm_compute on the implementation's exact outputs + theorems about a Gallina model of the result-producing functions tied to the code by a binary64 correspondence run on the final portal",
-    note=TB + "; " + RA + "; harness/narrow.py parts(); per-arm observation by wrapping module-level functions in the worker; the harness' float oracle gates failures (1 % margin)",
+    technique="Coq-proven result checker evaluated by vm_compute on the implementation's exact outputs + theorems about a Gallina model of the result-producing functions tied to the code by a binary64 correspondence run on the final portal, whose rows are checked against the partial theorem's hypotheses",
+    note=TB + "; " + RA + "; harness/narrow.py parts(); per-arm observation (incl. the replacement arms of _iterate_discover_portal) by wrapping module-level functions in the worker; the harness' float oracle gates failures (1 % margin) and checks the portal witness rows; c08.discovery_first_arm (float replica of portal discovery) only steers generation",
 )
 
 NA_DEFAULT = "no check registered yet: machinery under construction in this session (DESIGN.md section 5 has the plan); not claimed"
